@@ -22,6 +22,7 @@ THEOREMS = {
         "Dawgs.C06.Sites.user_ids_only_via_aliased_lookup",
         "Dawgs.C06.Sites.alias_after_fresh_define",
         "Dawgs.C06.Sites.parameter_path_separate",
+        "Dawgs.C06.Sites.no_user_generated_comparison",
         "Dawgs.C06.Sites.define_only_constants",
         "Dawgs.C06.Sites.alias_key_fallback_sites_known",
         "Dawgs.C06.Sites.alias_key_nonuser_are_fallbacks",
@@ -117,10 +118,13 @@ SPEC = {
             "x 7 renaming kinds of ALL user variables+aliases and parameters applied to the parsed model: fresh names; translator names (n0 e0 s0 i0 pi0 ep0 path depth "
             "root_id next_id satisfied is_cycle _kind_idx, column names, ...); cross-namespace collisions (a parameter spelled like a variable and vice versa); SQL keywords; "
             "spellings differing only in case; permutation of the query's own names; probe (one variable takes the spelling of a generated identifier that occurs in the "
-            "original translation). Both models are translated by the real translate.Translate; SQL (outermost projection aliases and ORDER BY references to them masked) and "
+            "original translation); sys (once per query, plus 12 re-aliasing shapes): the query is translated first, the generated identifier every user variable / alias / "
+            "parameter actually received is read off the scope trace (verif hook; fallback: identifiers in the SQL), and then each symbol alone AND all symbols at once are "
+            "renamed to (i) their OWN generated identifier(s), (ii) the generated identifier of every other user binding (thorough: every identifier defined in the translation), "
+            "(iii) the next counter value(s) of all eight prefix classes, i.e. identifiers the translation generates later — about 30 renamings per query quick. Both models are translated by the real translate.Translate; SQL (outermost projection aliases and ORDER BY references to them masked) and "
             "result parameters must be equal and both must fail or succeed alike. Non-trivial = the original translates and at least two distinct user symbols were renamed; "
             "distinct = distinct (query, kind, seed) op lines (sha1)",
-    "expected_branches": ["class.ok", "class.ns-collision", "kind.cross", "kind.translator", "kind.probe", "translated_pairs_ge2_frames"],
+    "expected_branches": ["class.ok", "kind.cross", "kind.translator", "kind.probe", "kind.sys", "sys_renamings", "translated_pairs_ge2_frames"],
     "trusted_base": ["tools/extract/goext c06 (syntactic provenance of Scope access arguments; go/ast only)",
                      "the metamorphic oracle in harness/c06.go (renaming by reflection over the cypher model, alias masking on the pgsql AST)",
                      "the transcription Model/C06.lean of translate/tracking.go (tied op-by-op to the real Scope only when hooks/C06.patch is applied)"],
